@@ -30,7 +30,7 @@ A0 == [ k |-> "full", st |-> 200, ccp |-> 1, ma |-> 5, fl |-> <<>>, swr |-> 1000
         vary |-> <<>>, vs |-> 0, lat |-> 0, hop |-> 0, loc1 |-> 0, locso |-> 0, cloc1 |-> 0, clocso |-> 0, upd |-> 0,
         body |-> 0, fr |-> 0 ]
 
-Stored == { A0, [A0 EXCEPT !.etag = 0, !.lm = 100], [A0 EXCEPT !.etag = 0] } \cup (IF Thorough THEN { [A0 EXCEPT !.lm = 100], [A0 EXCEPT !.vary = <<2>>] } ELSE {})
+Stored == { A0, [A0 EXCEPT !.etag = 0, !.lm = 100], [A0 EXCEPT !.etag = 0], [A0 EXCEPT !.fl = <<"no-cache">>, !.ncf = 2] } \cup (IF Thorough THEN { [A0 EXCEPT !.lm = 100], [A0 EXCEPT !.vary = <<2>>] } ELSE {})
 Lats == { l \in {0, 1, T - 1, T, T + 1, T + 4} : l >= 0 }
 BgKinds == { [A0 EXCEPT !.k = "304", !.st = 304, !.ma = 50, !.upd = 1], [A0 EXCEPT !.ma = 60, !.etag = 2], [A0 EXCEPT !.k = "err"],
              [A0 EXCEPT !.st = 503, !.ccp = 0], [A0 EXCEPT !.k = "hang"] }
